@@ -64,7 +64,8 @@ type c04Scenario struct {
 	Pos     int    `json:"pos"`               // >= 0: byte Pos is replaced by Val
 	Val     int    `json:"val"`
 	// target error
-	FailAt int `json:"fail_at"` // 1-based request sequence number answered with -ERR (0 = none)
+	FailAt  int    `json:"fail_at"`            // 1-based request sequence number answered with an error (0 = none)
+	ErrText string `json:"err_text,omitempty"` // the error text (without the leading '-'); "" = "ERR injected target error"
 	// target-exec-error: the ExecAt-th command the target EXECUTES (1-based; queued commands count when their
 	// EXEC runs) answers -ERR, so that inside MULTI/EXEC the error is an element of a successful EXEC reply
 	ExecAt int `json:"exec_at,omitempty"`
@@ -547,6 +548,19 @@ func rdbTailStr(s string, n int) string {
 // ---------------------------------------------------------------------------
 // execution + oracle
 
+// c04ErrorTexts: error replies a Redis server (or a proxy in front of it) sends for reasons that have
+// nothing to do with the key: the script-busy state shares its first four letters with BUSYKEY, the last one
+// carries the fragment of the RESTORE refusal although the payload is fine for this target.
+var c04ErrorTexts = []string{
+	"BUSY Redis is busy running a script. You can only call SCRIPT KILL or SHUTDOWN NOSAVE.",
+	"LOADING Redis is loading the dataset in memory",
+	"OOM command not allowed when used memory > 'maxmemory'.",
+	"READONLY You can't write against a read only replica.",
+	"MISCONF Redis is configured to save RDB snapshots, but it's currently unable to persist to disk.",
+	"NOAUTH Authentication required.",
+	"ERR Bad data format",
+}
+
 // c04CpWritten reports whether the target executed a checkpoint write that carries
 // the snapshot's offset as resume position.
 func c04CpWritten(log []*redisd.Req) bool { return rdbCpWritten(log) }
@@ -619,7 +633,11 @@ func c04ExecPlan(t *testing.T, scn c04Scenario, ch *mc.Chooser) (res mc.Result, 
 			}
 		case "target-error":
 			hooks.Prepare = func(srv *redisd.Server) {
-				srv.PlanRef().FailAt = map[int]string{scn.FailAt: "ERR injected target error"}
+				text := scn.ErrText
+				if text == "" {
+					text = "ERR injected target error"
+				}
+				srv.PlanRef().FailAt = map[int]string{scn.FailAt: text}
 			}
 		case "target-exec-error":
 			hooks.Prepare = func(srv *redisd.Server) {
@@ -1024,6 +1042,27 @@ func runC04(t *testing.T, rep *mc.Reporter) {
 				scn := scn0
 				scn.Mode, scn.FailAt = "target-error", k
 				mc.RunScenario(rep, scn, 0, budget, func(ch *mc.Chooser) mc.Result { return c04Exec(t, scn, ch) })
+			}
+			// the error TEXT and the key-exists policy: the replay classifies some replies by their text (RESTORE:
+			// "BUSYKEY Target key name already exists" / "Target key name is busy" = the key is there, "Bad data
+			// format" = fall back to native commands). Every text a server can send while the key does NOT exist -
+			// among them near-misses of those fragments - at every request, under every policy, for the
+			// one-worker configurations. The target is empty, so none of them may be taken for "key exists".
+			if cfg.Parallel == 1 && cfg.PipeSize == 1024 {
+				for _, text := range c04ErrorTexts {
+					for _, policy := range []string{"replace", "ignore", "error"} {
+						for k := 1; k <= requests; k++ {
+							if !mine() {
+								continue
+							}
+							scn := scn0
+							scn.Mode, scn.FailAt, scn.ErrText = "target-error", k, text
+							scn.Cfg.Policy = policy
+							rep.Count("target_error_text_executions", 1)
+							mc.RunScenario(rep, scn, 0, budget, func(ch *mc.Chooser) mc.Result { return c04Exec(t, scn, ch) })
+						}
+					}
+				}
 			}
 			// the k-th executed command fails when it runs (inside EXEC for bidirectional units); the connections
 			// are lost before the k-th request
